@@ -5,5 +5,5 @@ set -e
 cd "$(dirname "$0")"
 export CARGO_NET_OFFLINE=true
 cp -f /repo/Cargo.lock harness/Cargo.lock
-(cd harness && cargo build --release --offline --target-dir target 2>&1 | tail -3)
+(cd harness && cargo build --release --offline --bins --target-dir target 2>&1 | tail -3)
 (cd lean && lake build arkdrv Ark 2>&1 | tail -5)
